@@ -55,3 +55,18 @@ Proof.
   destruct Ev as (_ & _ & E3 & _ & _ & E6 & _). cbn in E3, E6. auto.
 Qed.
 Print Assumptions C14_event_state_of_write.
+
+(* the IF direction, for EVERY world in a fault-free state: an event of the hook's own state whose hook no longer fails is
+   handled — the hook is invoked on the looked-up run and returns nil (or the run's data was deleted: nothing to call) — and
+   acknowledged; the hook consumer's committed position moves past it, no record is written *)
+From WF Require Import proofs.RelayFacts proofs.FaultFree.
+Theorem C14_hook_iteration : forall c inst st idx e r s,
+  let k := match find_first (fun h => rs_eqb (fst h) st) (ec_hooks c) with Some h => snd h | None => O end in
+  ff s -> unit_filter (EHook st) e = false -> lookup_run (o_w s) (e_run e) = Some r ->
+  (hook_fails k <= att_get (w_att (o_w s)) (ufun_code (UFHook st)) (r_run r))%nat ->
+  exists s', after_lag c inst (EHook st) idx e s = (Ok PRun, s') /\ ff s' /\
+             get_cursor (o_w s') (EHook st) = S idx /\ w_recs (o_w s') = w_recs (o_w s) /\
+             (r_obj r <> ODeleted ->
+              exists t, o_trace s' = TAck e ROk :: TUser (UFHook st) r (Some r) (w_now (o_w s)) UOk :: t).
+Proof. exact hook_iteration_ff. Qed.
+Print Assumptions C14_hook_iteration.
